@@ -598,7 +598,23 @@ func TestC13(t *testing.T) {
 			run.Violation(id, r.Key, r.What, nil)
 		}
 	}
+	for i, mode := range []string{"join", "periodic"} {
+		id := "deaf-peer/" + mode
+		if !run.Mine(i+2) || !run.Want(id) {
+			continue
+		}
+		run.Journal(id, "start")
+		var res []*c01Result
+		err := Bubble(t, func() { res = runC13DeafPeer(run, run.Seed()*41+int64(i), mode) })
+		if err != nil {
+			res = append(res, &c01Result{"C13/bubble", err.Error()})
+		}
+		for _, r := range res {
+			run.Violation(id, r.Key, r.What, nil)
+		}
+	}
 	if !run.Replaying() {
+		run.Require("deaf-peer|join", "deaf-peer|periodic")
 		run.Require("nack-flood|indirect=1", "merge-cap|offered=150")
 		run.Require("odd|pushpull-join=true|left-alone|merge", "odd|pushpull-join=true|alone|merge+alive", "odd|gossip|with-peers|alive", "odd|pushpull-join=false|left-with-peers|none")
 	}
